@@ -1122,6 +1122,35 @@ func rPanicAssert(c *Ctx, closure []*ssa.Function) {
 					return
 				}
 				why, ok := c11PanicAllow[FuncName(TopFunc(fn))]
+				if !ok {
+					// a function split out of an enumerated one inherits its entry: every static
+					// caller of it in the repository is enumerated (transitively, depth 2)
+					var inherited func(f *ssa.Function, d int) (string, bool)
+					inherited = func(f *ssa.Function, d int) (string, bool) {
+						if w, listed := c11PanicAllow[FuncName(TopFunc(f))]; listed {
+							return w, true
+						}
+						if d >= 2 {
+							return "", false
+						}
+						callers := Callers(p.FuncsOfPkg(strings.TrimPrefix(strings.TrimPrefix(TopFunc(f).Pkg.Pkg.Path(), ModPath), "/")), CalleeFn(TopFunc(f)))
+						if len(callers) == 0 {
+							return "", false
+						}
+						w := ""
+						for _, cs := range callers {
+							cw, cok := inherited(cs.Fn, d+1)
+							if !cok {
+								return "", false
+							}
+							w = cw
+						}
+						return w, true
+					}
+					if w, inh := inherited(fn, 0); inh {
+						why, ok = w+" (moved into a helper called only from the enumerated function)", true
+					}
+				}
 				c.Check(ok, "C11.R-panic", FuncName(fn)+"|explicit panic", p.Pos(InstrPos(in)), orDefault(ifs(ok, "enumerated: "+why), "explicit panic reachable from a peer-input entry point is not in the frozen list: show that its condition cannot be derived from input, then add it with a reason"))
 			case *ssa.TypeAssert:
 				if x.CommaOk {
